@@ -5,6 +5,7 @@ package main
 
 import (
 	"fmt"
+	"reflect"
 	"strconv"
 	"strings"
 
@@ -135,20 +136,99 @@ func spb(s *string) *[]byte {
 	return &b
 }
 
+// The harness reaches struct fields by name through reflection, so that it still builds (and
+// can exhibit a failing input) when a field's Go type changes in /repo.
+
+// setField stores val (converted to the field's pointer element type) in the pointer field
+// `name` of struct value sv; absent fields are reported.
+func setField(sv reflect.Value, name string, val interface{}) {
+	f := sv.FieldByName(name)
+	if !f.IsValid() {
+		panic("harness: field " + name + " no longer exists in " + sv.Type().String())
+	}
+	v := reflect.ValueOf(val)
+	if f.Kind() == reflect.Ptr {
+		et := f.Type().Elem()
+		if !v.Type().ConvertibleTo(et) {
+			panic("harness: cannot store " + v.Type().String() + " in " + name + " of type " + f.Type().String())
+		}
+		p := reflect.New(et)
+		p.Elem().Set(v.Convert(et))
+		f.Set(p)
+		return
+	}
+	f.Set(v.Convert(f.Type()))
+}
+
+// getPtrField reads pointer field `name`: nil -> (zero, false).
+func getPtrField(sv reflect.Value, name string) (reflect.Value, bool) {
+	f := sv.FieldByName(name)
+	if !f.IsValid() {
+		panic("harness: field " + name + " no longer exists in " + sv.Type().String())
+	}
+	if f.Kind() == reflect.Ptr {
+		if f.IsNil() {
+			return reflect.Value{}, false
+		}
+		return f.Elem(), true
+	}
+	return f, true
+}
+
+func fieldBytes(sv reflect.Value, name string) *[]byte {
+	v, ok := getPtrField(sv, name)
+	if !ok {
+		return nil
+	}
+	var b []byte
+	if v.Kind() == reflect.String {
+		b = []byte(v.String())
+	} else {
+		b = append([]byte{}, v.Bytes()...)
+	}
+	return &b
+}
+
+func fieldString(sv reflect.Value, name string) *string {
+	b := fieldBytes(sv, name)
+	if b == nil {
+		return nil
+	}
+	s := string(*b)
+	return &s
+}
+
 func (c CompDesc) Build() *psa.SwComponent {
 	if c.Nil {
 		return nil
 	}
-	return &psa.SwComponent{MeasurementType: cps(c.MT), MeasurementValue: cpb(c.MV), Version: cps(c.Ver),
-		SignerID: cpb(c.SID), MeasurementDesc: cps(c.MD)}
+	sc := &psa.SwComponent{}
+	sv := reflect.ValueOf(sc).Elem()
+	set := func(name string, b *[]byte, text bool) {
+		if b == nil {
+			return
+		}
+		if text {
+			setField(sv, name, string(*b))
+		} else {
+			setField(sv, name, append([]byte{}, *b...))
+		}
+	}
+	set("MeasurementType", c.MT, true)
+	set("MeasurementValue", c.MV, false)
+	set("Version", c.Ver, true)
+	set("SignerID", c.SID, false)
+	set("MeasurementDesc", c.MD, true)
+	return sc
 }
 
 func compDescOf(sc *psa.SwComponent) CompDesc {
 	if sc == nil {
 		return CompDesc{Nil: true}
 	}
-	return CompDesc{MT: spb(sc.MeasurementType), MV: cpb(sc.MeasurementValue), Ver: spb(sc.Version),
-		SID: cpb(sc.SignerID), MD: spb(sc.MeasurementDesc)}
+	sv := reflect.ValueOf(sc).Elem()
+	return CompDesc{MT: fieldBytes(sv, "MeasurementType"), MV: fieldBytes(sv, "MeasurementValue"), Ver: fieldBytes(sv, "Version"),
+		SID: fieldBytes(sv, "SignerID"), MD: fieldBytes(sv, "MeasurementDesc")}
 }
 
 func (d *ClaimsDesc) buildSw() psa.ISwComponents {
@@ -187,74 +267,60 @@ func rawNonce(vals [][]byte) *eat.Nonce {
 
 // Build constructs the real claims-set (no validation, as after a decode).
 func (d *ClaimsDesc) Build() psa.IClaims {
+	var c psa.IClaims
 	if d.P == 1 {
-		c := &psa.P1Claims{CanonicalProfile: d.Canon}
-		if d.Prof != nil {
-			s := *d.Prof
-			c.Profile = &s
-		}
-		if d.CID != nil {
-			v := *d.CID
-			c.ClientID = &v
-		}
-		if d.LC != nil {
-			v := *d.LC
-			c.SecurityLifeCycle = &v
-		}
-		c.ImplID, c.BootSeed, c.InstID = cpb(d.Impl), cpb(d.Boot), cpb(d.Inst)
-		if d.Cert != nil {
-			s := *d.Cert
-			c.CertificationReference = &s
-		}
-		c.SwComponents = d.buildSw()
-		if d.NoSw != nil {
-			v := *d.NoSw
-			c.NoSwMeasurements = &v
-		}
-		if d.Nonce != nil {
-			v := append([]byte{}, (*d.Nonce)[0]...)
-			c.Nonce = &v
-		}
-		if d.VSI != nil {
-			s := *d.VSI
-			c.VSI = &s
-		}
-		return c
+		c = &psa.P1Claims{}
+	} else {
+		c = &psa.P2Claims{}
 	}
-	c := &psa.P2Claims{CanonicalProfile: d.Canon}
-	if d.ProfInvalid {
-		c.Profile = &eat.Profile{}
+	sv := reflect.ValueOf(c).Elem()
+	setField(sv, "CanonicalProfile", d.Canon)
+	if d.P == 1 {
+		if d.Prof != nil {
+			setField(sv, "Profile", *d.Prof)
+		}
+	} else if d.ProfInvalid {
+		sv.FieldByName("Profile").Set(reflect.ValueOf(&eat.Profile{}))
 	} else if d.Prof != nil {
 		p := eat.Profile{}
 		if err := p.Set(*d.Prof); err != nil {
 			panic("generator: profile not representable: " + *d.Prof)
 		}
-		c.Profile = &p
+		sv.FieldByName("Profile").Set(reflect.ValueOf(&p))
 	}
 	if d.CID != nil {
-		v := *d.CID
-		c.ClientID = &v
+		setField(sv, "ClientID", *d.CID)
 	}
 	if d.LC != nil {
-		v := *d.LC
-		c.SecurityLifeCycle = &v
+		setField(sv, "SecurityLifeCycle", *d.LC)
 	}
-	c.ImplID, c.BootSeed = cpb(d.Impl), cpb(d.Boot)
+	if d.Impl != nil {
+		setField(sv, "ImplID", append([]byte{}, *d.Impl...))
+	}
+	if d.Boot != nil {
+		setField(sv, "BootSeed", append([]byte{}, *d.Boot...))
+	}
 	if d.Inst != nil {
-		u := eat.UEID(append([]byte{}, *d.Inst...))
-		c.InstID = &u
+		setField(sv, "InstID", append([]byte{}, *d.Inst...))
 	}
 	if d.Cert != nil {
-		s := *d.Cert
-		c.CertificationReference = &s
-	}
-	c.SwComponents = d.buildSw()
-	if d.Nonce != nil {
-		c.Nonce = rawNonce(*d.Nonce)
+		setField(sv, "CertificationReference", *d.Cert)
 	}
 	if d.VSI != nil {
-		s := *d.VSI
-		c.VSI = &s
+		setField(sv, "VSI", *d.VSI)
+	}
+	if sw := d.buildSw(); sw != nil {
+		sv.FieldByName("SwComponents").Set(reflect.ValueOf(sw))
+	}
+	if d.P == 1 {
+		if d.NoSw != nil {
+			setField(sv, "NoSwMeasurements", *d.NoSw)
+		}
+		if d.Nonce != nil {
+			setField(sv, "Nonce", append([]byte{}, (*d.Nonce)[0]...))
+		}
+	} else if d.Nonce != nil {
+		sv.FieldByName("Nonce").Set(reflect.ValueOf(rawNonce(*d.Nonce)))
 	}
 	return c
 }
@@ -262,93 +328,112 @@ func (d *ClaimsDesc) Build() psa.IClaims {
 // DescOf reads a real claims-set back into a description. ok=false when the
 // value is outside the model's domain (foreign container type, OID profile…).
 func DescOf(ic psa.IClaims) (d ClaimsDesc, ok bool) {
-	swOf := func(s psa.ISwComponents) bool {
-		if s == nil {
-			d.SwKind = SwNilIface
-			return true
+	var sv reflect.Value
+	switch c := ic.(type) {
+	case *psa.P1Claims:
+		d.P = 1
+		sv = reflect.ValueOf(c).Elem()
+	case *psa.P2Claims:
+		d.P = 2
+		sv = reflect.ValueOf(c).Elem()
+	default:
+		return d, false
+	}
+	d.Canon = sv.FieldByName("CanonicalProfile").String()
+	if d.P == 1 {
+		d.Prof = fieldString(sv, "Profile")
+	} else if pf := sv.FieldByName("Profile"); !pf.IsNil() {
+		prof := pf.Interface().(*eat.Profile)
+		if !prof.IsURI() && !prof.IsOID() {
+			d.ProfInvalid = true
+		} else if prof.IsOID() {
+			return d, false
+		} else {
+			s, _ := prof.Get()
+			d.Prof = &s
 		}
-		vals, ok := psa.VerifSwComponentsValues(s)
-		if !ok {
-			return false
+	}
+	if v, ok := getPtrField(sv, "ClientID"); ok {
+		x := int32(v.Int())
+		if int64(x) != v.Int() {
+			return d, false
+		}
+		d.CID = &x
+	}
+	if v, ok := getPtrField(sv, "SecurityLifeCycle"); ok {
+		x := uint16(v.Uint())
+		if uint64(x) != v.Uint() {
+			return d, false // wider than the model's uint16: outside its domain (the oracle still judges)
+		}
+		d.LC = &x
+	}
+	d.Impl, d.Boot, d.Inst = fieldBytes(sv, "ImplID"), fieldBytes(sv, "BootSeed"), fieldBytes(sv, "InstID")
+	d.Cert, d.VSI = fieldString(sv, "CertificationReference"), fieldString(sv, "VSI")
+	swf := sv.FieldByName("SwComponents")
+	if swf.IsNil() {
+		d.SwKind = SwNilIface
+	} else {
+		vals, okc := psa.VerifSwComponentsValues(swf.Interface().(psa.ISwComponents))
+		if !okc {
+			return d, false
 		}
 		if vals == nil {
 			d.SwKind = SwNilSlice
-			return true
-		}
-		d.SwKind = SwList
-		d.Sw = make([]CompDesc, len(vals))
-		for i, v := range vals {
-			d.Sw[i] = compDescOf(v)
-		}
-		return true
-	}
-	switch c := ic.(type) {
-	case *psa.P1Claims:
-		d.P, d.Canon = 1, c.CanonicalProfile
-		if c.Profile != nil {
-			s := *c.Profile
-			d.Prof = &s
-		}
-		d.CID, d.LC = c.ClientID, c.SecurityLifeCycle
-		d.Impl, d.Boot, d.Inst = cpb(c.ImplID), cpb(c.BootSeed), cpb(c.InstID)
-		d.Cert, d.VSI = c.CertificationReference, c.VSI
-		if !swOf(c.SwComponents) {
-			return d, false
-		}
-		d.NoSw = c.NoSwMeasurements
-		if c.Nonce != nil {
-			l := [][]byte{append([]byte{}, *c.Nonce...)}
-			d.Nonce = &l
-		}
-		return d, true
-	case *psa.P2Claims:
-		d.P, d.Canon = 2, c.CanonicalProfile
-		if c.Profile != nil {
-			if !c.Profile.IsURI() && !c.Profile.IsOID() {
-				d.ProfInvalid = true
-			} else if c.Profile.IsOID() {
-				return d, false
-			} else {
-				s, _ := c.Profile.Get()
-				d.Prof = &s
+		} else {
+			d.SwKind = SwList
+			d.Sw = make([]CompDesc, len(vals))
+			for i, v := range vals {
+				d.Sw[i] = compDescOf(v)
 			}
 		}
-		d.CID, d.LC = c.ClientID, c.SecurityLifeCycle
-		d.Impl, d.Boot = cpb(c.ImplID), cpb(c.BootSeed)
-		if c.InstID != nil {
-			b := append([]byte{}, (*c.InstID)...)
-			d.Inst = &b
+	}
+	if d.P == 1 {
+		if v, ok := getPtrField(sv, "NoSwMeasurements"); ok {
+			x := uint(v.Uint())
+			d.NoSw = &x
 		}
-		d.Cert, d.VSI = c.CertificationReference, c.VSI
-		if !swOf(c.SwComponents) {
-			return d, false
-		}
-		if c.Nonce != nil {
-			l := make([][]byte, c.Nonce.Len())
-			for i := range l {
-				l[i] = append([]byte{}, c.Nonce.GetI(i)...)
-			}
+		if b := fieldBytes(sv, "Nonce"); b != nil {
+			l := [][]byte{*b}
 			d.Nonce = &l
 		}
-		return d, true
+	} else if nf := sv.FieldByName("Nonce"); !nf.IsNil() {
+		n := nf.Interface().(*eat.Nonce)
+		l := make([][]byte, n.Len())
+		for i := range l {
+			l[i] = append([]byte{}, n.GetI(i)...)
+		}
+		d.Nonce = &l
 	}
-	return d, false
+	return d, true
 }
 
 // ---- observation table (validate verdict + the ten getters) ----
 
+// fmtComps renders what the component getters return (not the struct fields): an absent
+// optional field is "_", a failing mandatory getter "!".
 func fmtComps(scs []psa.ISwComponent) string {
 	if scs == nil {
 		return "nil"
 	}
 	parts := make([]string, len(scs))
 	for i, sc := range scs {
-		p, ok := sc.(*psa.SwComponent)
-		if !ok {
-			parts[i] = "?"
-			continue
+		txt := func(v string, err error) string {
+			if err != nil {
+				if errMask(err) == 1 {
+					return "_"
+				}
+				return "!"
+			}
+			return "x" + hx([]byte(v))
 		}
-		parts[i] = compDescOf(p).String()
+		bin := func(v []byte, err error) string {
+			if err != nil {
+				return "!"
+			}
+			return "x" + hx(v)
+		}
+		parts[i] = "(" + txt(sc.GetMeasurementType()) + "," + bin(sc.GetMeasurementValue()) + "," + txt(sc.GetVersion()) + "," +
+			bin(sc.GetSignerID()) + "," + txt(sc.GetMeasurementDesc()) + ")"
 	}
 	return "[" + strings.Join(parts, ";") + "]"
 }
